@@ -502,12 +502,12 @@ func c20MixedCase(in c20MixedInput) *fw.Violation {
 	correct := map[string]string{"text": "a, b", "image": "b, c"}
 	for _, h := range in.History {
 		if err := c20MixedVerify(qdir, h, correct[h]); err != nil {
-			return &fw.Violation{Sub: "mixed", Signature: "mixed-history-rejects-right-key", What: "a correctly marked question is rejected", Input: in, Expected: "accepted", Observed: err.Error()}
+			return &fw.Violation{Sub: "mixed", Signature: "mixed-history-rejects-right-key", What: "a correctly marked question is rejected", Input: in, Expected: "accepted", Observed: strings.ReplaceAll(err.Error(), dir, "<dir>")}
 		}
 	}
 	err = c20MixedVerify(qdir, in.Subject, in.Answer)
 	if err != nil && strings.HasPrefix(err.Error(), "construction") {
-		return &fw.Violation{Sub: "mixed", Signature: "mixed-question-rejected", What: "a well-formed question over program files cannot be built", Input: in, Expected: "built", Observed: err.Error()}
+		return &fw.Violation{Sub: "mixed", Signature: "mixed-question-rejected", What: "a well-formed question over program files cannot be built", Input: in, Expected: "built", Observed: strings.ReplaceAll(err.Error(), dir, "<dir>")}
 	}
 	if (err == nil) != in.Want {
 		sig := "mixed-accepts-wrong-key"
@@ -515,7 +515,7 @@ func c20MixedCase(in c20MixedInput) *fw.Violation {
 			sig = "mixed-rejects-right-key"
 		}
 		return &fw.Violation{Sub: "mixed", Signature: sig, What: "the verdict on a question depends on what was verified before it in the same process (or is wrong on its own)", Input: in,
-			Expected: fmt.Sprint("accept=", in.Want), Observed: fmt.Sprint("accept=", err == nil, " ", err)}
+			Expected: fmt.Sprint("accept=", in.Want), Observed: strings.ReplaceAll(fmt.Sprint("accept=", err == nil, " ", err), dir, "<dir>")}
 	}
 	return nil
 }
@@ -647,6 +647,7 @@ func c20ParseErrCase(in c20ParseErrInput) *fw.Violation {
 		}
 		accept = true
 	}()
+	detail = strings.ReplaceAll(detail, dir, "<dir>") // the scratch directory has a fresh name on every run
 	if strings.HasPrefix(detail, "PANIC") {
 		return &fw.Violation{Sub: "parse-error", Signature: "gopanic", What: "verification panicked", Input: in, Observed: detail}
 	}
